@@ -197,3 +197,63 @@ func levelPass(al alphabet) (fails []Fail, n int) {
 	}
 	return fails, n
 }
+
+// spacePass, clause (h): white space that is not ASCII is part of the reference. The URL standard strips C0 controls
+// and U+0020 from both ends of its input and nothing else: a reference that ends in U+00A0, U+3000, U+2028 ... keeps
+// that code point, percent-encoded. For every near-plain absolute text and every relative reference of the grid
+// (without a fragment, with a path) the text followed by such a code point must normalise to a string that holds the
+// code point's percent-encoding.
+func spacePass(al alphabet) (fails []Fail, n int) {
+	spaces := []string{"\u0085", "\u00a0", "\u1680", "\u2000", "\u2009", "\u2028", "\u2029", "\u202f", "\u205f", "\u3000"}
+	type tc struct{ text, parent string }
+	var cs []tc
+	for _, c := range al.nearCases(2) {
+		cs = append(cs, tc{c.Text, ""})
+	}
+	seen := map[string]bool{}
+	for _, c := range al.relCases() {
+		if !seen[c.Text] {
+			seen[c.Text] = true
+			cs = append(cs, tc{c.Text, al.RelParents[1]})
+		}
+	}
+	reported := map[string]bool{}
+	for _, c := range cs {
+		t := strings.Trim(c.text, `"' `)
+		if t != c.text || strings.Contains(t, "#") || t == "" {
+			continue
+		}
+		rest := t
+		if i := strings.Index(t, "://"); i >= 0 {
+			rest = t[i+3:]
+		} else if strings.HasPrefix(t, "//") {
+			rest = t[2:]
+		}
+		if c.parent == "" && !strings.Contains(rest, "/") && !strings.Contains(rest, "?") {
+			continue // the code point would land in the host
+		}
+		if strings.HasPrefix(t, "//") && !strings.Contains(rest, "/") && !strings.Contains(rest, "?") {
+			continue
+		}
+		for _, sp := range spaces {
+			enc := ""
+			for _, b := range []byte(sp) {
+				enc += fmt.Sprintf("%%%02X", b)
+			}
+			got, want := eval(t+sp, c.parent, false), eval(t+enc, c.parent, false)
+			n++
+			if got.Err != "" || want.Err != "" {
+				continue // rejected references carry no demand here
+			}
+			// (the rest of the string may differ: a query with raw bytes in it is re-encoded as a whole)
+			if !strings.Contains(strings.ToUpper(got.Raw), enc) {
+				sig := "unicode-space-at-the-end-not-kept"
+				if !reported[sig] {
+					reported[sig] = true
+					fails = append(fails, Fail{Sig: sig, Case: Case{Text: t + sp, Parent: c.parent, Query: "-", WellFormed: true}, Detail: fmt.Sprintf("%q (ends in U+%04X) normalises to %v, the same text with that code point percent-encoded (%q) to %v", t+sp, []rune(sp)[0], got, t+enc, want)})
+				}
+			}
+		}
+	}
+	return fails, n
+}
